@@ -406,6 +406,70 @@ def cinfo(run, fx):
         run.violated('CINFO', 'gr_seg_cinfo', g.where(), 'gr_seg_cinfo bypasses the bounds-checked accessor')
 
 
+def assocexec(run, fx, maxc=4, maxs=3):
+    """CINFO by bounded abstract execution (rules/ordint.py): Segment::associateChars, with the CharInfo / Slot accessors and
+    Segment::charinfo inlined from their own CFGs, is interpreted on every segment of 1..maxc characters and 0..maxs slots, every slot
+    carrying every association range [before, after] inside the text (the closed provenance ASSOCDOM establishes).  Afterwards, C05's
+    clauses hold: when the segment has slots, every char-info's before and after are slot indices in [0, n_slots) with before <= after,
+    every character index lies in the [before, after] range of at least one slot, every slot's range is still inside the text, and the
+    slot indices are 0..n-1 in stream order."""
+    import itertools
+    from . import ordint as O
+    fn = fx.one('graphite2::Segment::associateChars')
+    PS, PC, PG = 'graphite2::Slot::', 'graphite2::CharInfo::', 'graphite2::Segment::'
+    srec, crec, grec = fx.record('graphite2::Slot'), fx.record('graphite2::CharInfo'), fx.record('graphite2::Segment')
+
+    def mk(rec, pfx):
+        r = O.Rec()
+        for f in rec['fields']:
+            r[pfx + f['n']] = O.Ptr(None) if '*' in (f.get('t') or '') else None
+        return r
+    cases = 0
+    for nc in range(1, maxc + 1):
+        ranges = [(a, b) for a in range(nc) for b in range(a, nc)]
+        for ns in range(0, maxs + 1):
+            for assign in itertools.product(ranges, repeat=ns):
+                cases += 1
+                chars = O.Vec([mk(crec, PC) for _ in range(nc)])
+                for c in chars.items:
+                    c[PC + 'm_before'] = 77          # stale values from a previous association must not survive
+                    c[PC + 'm_after'] = 77
+                slots = [mk(srec, PS) for _ in range(ns)]
+                for k, sl in enumerate(slots):
+                    sl[PS + 'm_before'], sl[PS + 'm_after'] = assign[k]
+                    sl[PS + 'm_index'] = 55
+                    sl[PS + 'm_next'] = O.Ptr(slots[k + 1]) if k + 1 < ns else O.Ptr(None)
+                seg = mk(grec, PG)
+                seg[PG + 'm_charinfo'] = O.It(chars, 0)
+                seg[PG + 'm_numCharinfo'] = nc
+                seg[PG + 'm_numGlyphs'] = ns            # C12 COUNTSYNC / C02 GROWTH keep the count in step with the stream
+                seg[PG + 'm_dir'] = 0
+                seg[PG + 'm_first'] = O.Ptr(slots[0]) if ns else O.Ptr(None)
+                seg[PG + 'm_last'] = O.Ptr(slots[-1]) if ns else O.Ptr(None)
+                it = O.Interp(fx)
+                it.MAX_STEPS = 6000
+                try:
+                    it.call(fn, seg, [0, nc])
+                except O.Violation as v:
+                    return cases, '%d characters, slot ranges %s: %s (%s)' % (nc, list(assign), v.what, v.loc)
+                if not ns:
+                    continue
+                desc = '%d characters, %d slots with [before,after] = %s' % (nc, ns, list(assign))
+                for k, sl in enumerate(slots):
+                    if sl[PS + 'm_index'] != k:
+                        return cases, '%s: slot %d gets index %r' % (desc, k, sl[PS + 'm_index'])
+                    b, a = sl[PS + 'm_before'], sl[PS + 'm_after']
+                    if not (isinstance(b, int) and isinstance(a, int) and 0 <= b <= a < nc):
+                        return cases, '%s: afterwards slot %d has before=%r after=%r, not a range inside the text' % (desc, k, b, a)
+                for j, c in enumerate(chars.items):
+                    b, a = c[PC + 'm_before'], c[PC + 'm_after']
+                    if not (isinstance(b, int) and isinstance(a, int) and 0 <= b < ns and 0 <= a < ns):
+                        return cases, '%s: char-info %d ends with before=%r after=%r, not slot indices in [0,%d)' % (desc, j, b, a, ns)
+                    if not any(sl[PS + 'm_before'] <= j <= sl[PS + 'm_after'] for sl in slots):
+                        return cases, '%s: character %d lies in no slot\'s [before,after] range afterwards' % (desc, j)
+    return cases, None
+
+
 def run(run):
     vm = R.get_vm(run)
     fx = vm.fx
@@ -415,6 +479,15 @@ def run(run):
     gapfill(run, fx)
     edgefill(run, fx)
     assocpasses(run, fx)
+    ac = fx.one('graphite2::Segment::associateChars')
+    try:
+        cases, prob = assocexec(run, fx)
+        if prob:
+            run.violated('CINFO', 'associateChars leaves every character covered and every index in range', ac.where(), prob)
+        else:
+            run.held('CINFO', 'associateChars leaves every character covered and every index in range', ac.where(), '%d abstract executions: every text of 1..4 characters x 0..3 slots x every association range' % cases)
+    except AnalysisBroken as ex:
+        run.broken('CINFO', 'associateChars leaves every character covered and every index in range', str(ex), ac.where())
     from . import width
     width.no_narrow(run, fx, 'CINFO', [('Slot::original', 'graphite2::Slot::originate'), ('Slot::before', 'graphite2::Slot::before'),
                                        ('Slot::after', 'graphite2::Slot::after'), ('CharInfo::before', 'graphite2::CharInfo::before'),
